@@ -432,3 +432,136 @@ def conc_string_cells(prefix, data, terminate=True):
     if terminate:
         st['%s[%d]' % (prefix, len(bs))] = fs(0)
     return st
+
+
+# =============================================================================== wait.h status macros
+def _c_eval(body, env):
+    """a C integer expression over the names in env (function-like names are Python callables), with C's operator precedence
+    (bitwise & ^ | bind more loosely than the comparisons); None if it uses anything else"""
+    import re as _re
+    toks = _re.findall(r'\s*(\d+[uUlL]*|0[xX][0-9a-fA-F]+[uUlL]*|[A-Za-z_]\w*|<<|>>|<=|>=|==|!=|&&|\|\||[-+*/%&|^~!<>(),?:])', body)
+    if ''.join(toks).replace(' ', '') != _re.sub(r'\s+', '', body):
+        return None
+    PREC = [('||',), ('&&',), ('|',), ('^',), ('&',), ('==', '!='), ('<', '<=', '>', '>='), ('<<', '>>'), ('+', '-'), ('*', '/', '%')]
+    pos = [0]
+
+    class Bad(Exception):
+        pass
+
+    def peek():
+        return toks[pos[0]] if pos[0] < len(toks) else None
+
+    def take(t=None):
+        if pos[0] >= len(toks) or (t is not None and toks[pos[0]] != t):
+            raise Bad()
+        pos[0] += 1
+        return toks[pos[0] - 1]
+
+    def primary():
+        t = take()
+        if t == '(':
+            # a cast to an integer type is the identity here
+            save = pos[0]
+            words = []
+            while peek() in ('unsigned', 'signed', 'int', 'long', 'char', 'short'):
+                words.append(take())
+            if words and peek() == ')':
+                take(')')
+                v = unary()
+                if 'char' in words:
+                    v &= 0xff
+                    if 'unsigned' not in words and v >= 128:
+                        v -= 256
+                return v
+            pos[0] = save
+            v = expr(0)
+            take(')')
+            return v
+        if _re.match(r'\d|0[xX]', t):
+            return int(_re.sub(r'[uUlL]+$', '', t), 0)
+        if _re.match(r'[A-Za-z_]', t):
+            if t not in env:
+                raise Bad()
+            if peek() == '(':
+                take('(')
+                args = []
+                if peek() != ')':
+                    args.append(expr(0))
+                    while peek() == ',':
+                        take(',')
+                        args.append(expr(0))
+                take(')')
+                if not callable(env[t]):
+                    raise Bad()
+                return int(env[t](*args))
+            if callable(env[t]):
+                raise Bad()
+            return env[t]
+        raise Bad()
+
+    def unary():
+        t = peek()
+        if t == '!':
+            take()
+            return int(not unary())
+        if t == '~':
+            take()
+            return ~unary()
+        if t == '-':
+            take()
+            return -unary()
+        if t == '+':
+            take()
+            return unary()
+        return primary()
+
+    def expr(level):
+        if level == len(PREC):
+            return unary()
+        v = expr(level + 1)
+        while peek() in PREC[level]:
+            op = take()
+            r = expr(level + 1)
+            v = {'||': lambda a, b_: int(bool(a) or bool(b_)), '&&': lambda a, b_: int(bool(a) and bool(b_)), '|': lambda a, b_: a | b_, '^': lambda a, b_: a ^ b_,
+                 '&': lambda a, b_: a & b_, '==': lambda a, b_: int(a == b_), '!=': lambda a, b_: int(a != b_), '<': lambda a, b_: int(a < b_), '<=': lambda a, b_: int(a <= b_),
+                 '>': lambda a, b_: int(a > b_), '>=': lambda a, b_: int(a >= b_), '<<': lambda a, b_: a << b_, '>>': lambda a, b_: a >> b_, '+': lambda a, b_: a + b_,
+                 '-': lambda a, b_: a - b_, '*': lambda a, b_: a * b_, '/': lambda a, b_: int(a / b_) if b_ else 0, '%': lambda a, b_: a % b_ if b_ else 0}[op](v, r)
+        return v
+    try:
+        v = expr(0)
+        if peek() == '?':
+            return None
+        if pos[0] != len(toks):
+            return None
+        return int(v)
+    except (Bad, Exception):
+        return None
+
+
+def waitmacro_sites(db, unit='qmail-rspawn.c'):
+    """wait_crashed / wait_exitcode as functions of the status word, for every exit code 0..255 and every signal with and without a core dump"""
+    u = db.unit(unit)
+    glibc = {
+        'WIFEXITED': lambda w: int((w & 0x7f) == 0), 'WEXITSTATUS': lambda w: (w >> 8) & 0xff, 'WTERMSIG': lambda w: w & 0x7f,
+        'WIFSIGNALED': lambda w: int(((w & 0x7f) + 1) >> 1 > 0 and (w & 0x7f) != 0x7f), 'WCOREDUMP': lambda w: w & 0x80, 'WIFSTOPPED': lambda w: int((w & 0xff) == 0x7f),
+        'WSTOPSIG': lambda w: (w >> 8) & 0xff,
+    }
+    out = {}
+    bad_c = bad_e = None
+    mc, me = u.macros.get('wait_crashed'), u.macros.get('wait_exitcode')
+    if not mc or not me or not mc.get('fn') or not me.get('fn'):
+        raise AnalysisBroken('%s: wait_crashed / wait_exitcode are not function-like macros' % unit)
+    words = [c << 8 for c in range(256)] + [s for s in range(1, 127)] + [s | 0x80 for s in range(1, 127)]
+    for w in words:
+        vc = _c_eval(mc['body'], dict(glibc, **{mc['params'][0]: w}))
+        ve = _c_eval(me['body'], dict(glibc, **{me['params'][0]: w}))
+        if vc is None or ve is None:
+            raise AnalysisBroken('%s: cannot evaluate %r / %r' % (unit, mc['body'], me['body']))
+        crashed = (w & 127) != 0
+        if bool(vc) != crashed and bad_c is None:
+            bad_c = ('status word 0x%04x (%s): wait_crashed() is %d' % (w, ('killed by signal %d%s' % (w & 127, ', core dumped' if w & 0x80 else '')) if crashed else 'exit code %d' % (w >> 8), vc))
+        if not crashed and ve != (w >> 8) and bad_e is None:
+            bad_e = 'exit code %d: wait_exitcode() is %d' % (w >> 8, ve)
+    out['wait_crashed-iff-killed-by-a-signal(core-or-not)'] = (bad_c is None, 'wait.h', bad_c or '%d status words' % len(words), [])
+    out['wait_exitcode-is-the-exit-code(0..255)'] = (bad_e is None, 'wait.h', bad_e or '256 exit codes', [])
+    return out
